@@ -1,6 +1,7 @@
 /-
   C10 — The no-delete annotation protects a node from removal, not from tainting.
 -/
+import EscProofs.P.GenReap
 import EscProofs.Lemmas.Run
 import EscProofs.Lemmas.Classify
 namespace Esc.P
